@@ -16,7 +16,13 @@
        has s=K   value_or s=K v=N [mv=1]   and_then s=K f=inc|none   or_else s=K [v=N] [mv=1]   ocat s=K q=Q [take=1]
    new kind=oref n=N                                optional<int&> slots over three int cells
        bind s=K c=C how=ctor|assign|emplace   null s=K how=..   reset s=K   assign|ctor   swap   write s=K v=N
-       get s=K   rel s=K with=J   reln s=K   conv s=K
+       get s=K   rel s=K with=J   reln s=K
+       conv s=K how=ctor|implicit|assign src=ref|cref|rref|val|cval [pre=C]
+                                       optional<int const&> direct- / copy-initialized from, or (bound to cell C / empty
+                                       before) assigned from: slot K as non-const lvalue / const lvalue / rvalue
+                                       optional<int&>, or an optional<int> (non-const / const lvalue) holding a copy of
+                                       the referent of slot K (empty when the slot is); answer `-` or `<referent> p=1`
+                                       (p: the result points at the object the source holds), `nc` = does not compile
    new kind=exp alts=<TE> n=N                       expected<T,E> slots
        ctor_def|ctor_val|ctor_err s=K [v=N]   emplace s=K v=N   assign|ctor   swap   assign_unex s=K v=N
        has s=K   value_or s=K v=N [mv=1]   and_then s=K f=inc|fail [v=N]   or_else s=K f=recover|same [v=N]   ecat s=K q=Q
@@ -810,11 +816,39 @@ def stepRef (lv : Live) (l : Line) : Option (DState × String) :=
         some (out lv ((bitsP fun r => optRelNullR r v) ++ (bitsP fun r => optRelNullL r v))
           ((bitsP fun r => Spec.optRel relOps r sv (none : Option Val)) ++ (bitsP fun r => Spec.optRel relOps r (none : Option Val) sv)))
       | _, _ => none
-  | "conv" =>   -- optional<U const&>(optional<U&>) does not compile: known finding F-C07-optional-ref-conversion
-    (l.nat? "s").bind fun k =>
-      match lv.sr[k]? with
-      | some sa => some (out lv "nc" (match refV lv.scells sa with | some x => showV x | none => "-"))
-      | none => none
+  | "conv" =>
+    -- optional<T&>(optional<U> const&) / operator=(optional<U> const&): Model.orefConv on the address the source holds
+    -- (its `_ptr`; for an optional<int> source the address of its storage, placed behind the cells), P2988 wording =
+    -- Spec.orefConv.  Which overload the source form selects is the compiler's (validated by R1 on every form).
+    match l.nat? "s", l.str? "how", l.str? "src" with
+    | some k, some how, some src =>
+      let pre := l.nat? "pre"
+      if !(["ctor", "implicit", "assign"].contains how) || !(["ref", "cref", "rref", "val", "cval"].contains src) then none
+      else if (l.get? "pre").isSome && (how != "assign" || (pre.getD lv.mcells.length) ≥ lv.mcells.length) then none
+      else
+      match lv.mr[k]?, lv.sr[k]? with
+      | some a, some sa =>
+        let isVal := src == "val" || src == "cval"
+        let side (cells : List Int) (p : Option Nat) : List Int × Option Nat :=
+          if isVal then
+            match p.bind (cells[·]?) with
+            | some v => (cells ++ [v], some cells.length)
+            | none => (cells, none)
+          else (cells, p)
+        let ms := side lv.mcells a
+        let ss := side lv.scells sa
+        let sh (mem : List Int) (want r : Option Nat) : String :=
+          match r with
+          | none => "-"
+          | some q =>
+            if some q == want then (match mem[q]? with | some v => showV (mkV .int v) ++ " p=1" | none => "oob")
+            else "engaged p=0"
+        let m := match orefConv ms.2 with
+          | .ok r => sh ms.1 ms.2 r
+          | .error e => e.fmt
+        some (out lv m (sh ss.1 ss.2 (Spec.orefConv ss.2)))
+      | _, _ => none
+    | _, _, _ => none
   | _ => none
 
 /-- kinds of the selector probes (`new kind=sel`) -/
